@@ -5,7 +5,9 @@
 
    [renders d s]: s is obtained from d by replacing every atom by its text, every space / line /
    hardline by ANY non-empty string of blanks, every line_ by ANY (possibly empty) string of blanks,
-   independently at each occurrence; nest / group / align are ignored.  This contains every layout
+   independently at each occurrence; nest / group / align are ignored; the comment of the repaired
+   `if` printer ([DComment] = text "//" + hardline) by "//", a newline and ANY string of blanks (the
+   indentation of the next line).  This contains every layout
    the `pretty` crate can choose at any width and indentation (a line is a space or a newline
    followed by indentation spaces; a line_ is nothing or a newline followed by indentation). *)
 From Coq Require Import List ZArith NArith String Ascii Bool Lia DecimalString DecimalN DecimalPos DecimalFacts.
@@ -129,7 +131,7 @@ Proof. destruct ch as [[] [] [] [] [] [] [] []]; cbv; intros; try discriminate; 
 
 Lemma atom_text_head a : atom_ok a = true -> exists ch r, atom_text a = String ch r /\ solid ch = true.
 Proof.
-  destruct a as [s|n|y]; cbn [atom_ok atom_text].
+  destruct a as [s|n|y|]; cbn [atom_ok atom_text].
   - destruct s as [|ch r]; [discriminate|]. cbn. intros H. apply andb_prop in H. destruct H as [H _].
     eexists _, _; split; [reflexivity|]. now apply letter_solid.
   - intros _. destruct n as [|p].
@@ -138,6 +140,7 @@ Proof.
       apply digit_solid. unfold nonzero_digit in Hc. apply andb_prop in Hc. tauto.
   - intros _. destruct (sym_text_head y) as (ch & r & E & Hc). rewrite E. eexists _, _; split; [reflexivity|].
     now apply symc_solid.
+  - intros _. eexists _, _; split; reflexivity.
 Qed.
 
 (* ---------- all layouts ---------- *)
@@ -221,7 +224,7 @@ Proof.
   intros Hw Hc Htr Hok. apply (hd_from a r tr); auto.
   - intros ch H. now rewrite blank_not_wordc.
   - intros b Hs _ _. unfold sticky in Hs. rewrite Hw in Hs. cbn [andb] in Hs. apply orb_false_elim in Hs.
-    destruct Hs as [Hs _]. destruct b as [s|n|y]; try discriminate.
+    destruct Hs as [Hs _]. destruct b as [s|n|y|]; try discriminate; [|reflexivity].
     cbn [atom_text]. destruct (sym_text_head y) as (ch & rr & E & Hc'). rewrite E. cbn. now rewrite symc_not_wordc.
 Qed.
 Lemma hd_after_op a r tr :
@@ -231,12 +234,13 @@ Proof.
   intros Hw Hc Htr Hok. apply (hd_from a r tr); auto.
   - apply blank_not_opc.
   - intros b Hs _ Hbok. unfold sticky in Hs. rewrite Hw in Hs. cbn [andb] in Hs. apply orb_false_elim in Hs.
-    destruct Hs as [_ Hs]. destruct b as [s|n|y]; cbn [atom_text].
+    destruct Hs as [_ Hs]. destruct b as [s|n|y|]; cbn [atom_text].
     + destruct s as [|ch rr]; [discriminate|]. cbn in Hbok. apply andb_prop in Hbok. destruct Hbok as [H _].
       cbn. apply wordc_not_opc. now apply letter_wordc.
     + destruct n as [|p]; [reflexivity|]. destruct (n_to_string_pos p) as (ch & rr & E & Hd & _). rewrite E. cbn.
       apply wordc_not_opc, digit_wordc. unfold nonzero_digit in Hd. apply andb_prop in Hd. tauto.
     + destruct y as [| | | | | | | | | | | |[]| | | | |]; try discriminate; reflexivity.
+    + discriminate Hs.
 Qed.
 
 (* ---------- scan, per atom ---------- *)
@@ -375,11 +379,12 @@ Proof. destruct ch as [[] [] [] [] [] [] [] []]; cbv; intros; try discriminate; 
 (* is0 / starts_cns on the text of the next atom *)
 Lemma is0_text b R : atom_ok b = true -> b <> ANum 0 -> is0 (atom_text b ++ R) = false.
 Proof.
-  intros Hb Hne. destruct b as [s|n|y]; cbn [atom_text].
+  intros Hb Hne. destruct b as [s|n|y|]; cbn [atom_text].
   - destruct s as [|ch r]; [discriminate|]. cbn in Hb. apply andb_prop in Hb. destruct Hb as [H _]. cbn. now apply letter_not_0.
   - destruct n as [|p]; [congruence|]. destruct (n_to_string_pos p) as (ch & r & E & Hd & _). rewrite E. cbn.
     unfold nonzero_digit in Hd. apply andb_prop in Hd. destruct Hd as [_ Hd]. now apply negb_true_iff.
   - destruct (sym_text_head y) as (ch & r & E & Hc). rewrite E. cbn. now apply symc_not_0.
+  - reflexivity.
 Qed.
 Lemma starts_cns_cases s : starts_cns s = true -> exists r, s = "cns" ++ r.
 Proof.
@@ -400,7 +405,7 @@ Proof.
 Qed.
 Lemma starts_cns_other b R : atom_ok b = true -> (forall s, b <> AWord s) -> starts_cns (atom_text b ++ R) = false.
 Proof.
-  intros Hb Hne. destruct b as [s|n|y]; [exfalso; now apply (Hne s)| |]; cbn [atom_text].
+  intros Hb Hne. destruct b as [s|n|y|]; [exfalso; now apply (Hne s)| | |reflexivity]; cbn [atom_text].
   - destruct n as [|p]; [change (n_to_string 0) with "0"; cbn [append starts_cns]; destruct R as [|x [|y z]]; reflexivity|].
     destruct (n_to_string_pos p) as (ch & r & E & Hd & _). rewrite E.
     unfold nonzero_digit in Hd. apply andb_prop in Hd. destruct Hd as [Hd _].
@@ -408,6 +413,22 @@ Proof.
   - destruct (sym_text_head y) as (ch & r & E & Hc). rewrite E.
     cbn [append starts_cns]. destruct (r ++ R) as [|x [|y' z]]; try reflexivity. now rewrite symc_not_c.
 Qed.
+
+(* the comment atom: "//" up to and including its newline is skipped, together with further newlines *)
+Lemma nl_blank ch : is_nl ch = true -> is_blank ch = true.
+Proof. destruct ch as [[] [] [] [] [] [] [] []]; cbv; intros; try discriminate; reflexivity. Qed.
+Lemma skip_ws_skip_nl s : skip_ws (skip_while is_nl s) = skip_ws s.
+Proof.
+  induction s as [|ch s IH]; [reflexivity|]. cbn [skip_while]. destruct (is_nl ch) eqn:E; [|reflexivity].
+  rewrite IH. cbn [skip_ws]. now rewrite (nl_blank ch E).
+Qed.
+Lemma lex_skip_nl n s : lex n (skip_while is_nl s) = lex n s.
+Proof. destruct n; [reflexivity|]. rewrite !lex_S. now rewrite skip_ws_skip_nl. Qed.
+Lemma scan_comment R : scan (comment_text ++ R) = LSkip (skip_while is_nl R).
+Proof. reflexivity. Qed.
+Lemma lex_step_skip n s s' r l :
+  skip_ws s = s' -> s' <> "" -> scan s' = LSkip r -> lex n r = Some l -> lex (S n) s = Some l.
+Proof. intros E1 Hne E2 E3. rewrite lex_S, E1. destruct s'; [congruence|]. now rewrite E2. Qed.
 
 Lemma lex_chunks : forall m ps, List.length ps <= m -> forall last tr n,
   chain_ok last ps -> blankstr tr = true -> forallb atom_ok (map snd ps) = true ->
@@ -439,7 +460,7 @@ Proof.
       - now apply skip_spaced_cons.
       - apply (IH r2 ltac:(cbn in Hm; lia) (Some b)); auto.
         pose proof (spaced_len_cons w' b r2 tr Hb). lia. }
-    destruct a as [s|k|y].
+    destruct a as [s|k|y|].
     + (* word *)
       apply (lex_step n _ _ (word_token s) (spaced r tr) _ Hskip Hne); [|exact IHr].
       apply scan_word; [exact Ha|]. now apply (hd_after_wordy (AWord s)).
@@ -452,10 +473,10 @@ Proof.
         destruct (Hnext w' b r2 eq_refl) as (Hw' & Hcl & Hc2 & Hb & Hok2 & Hsk & IH2).
         assert (Hnone : (forall c0, b <> ASym (SCmp c0)) -> zero_cmp (atom_text b ++ spaced r2 tr) = None ->
                         lex (S n) (spaced ((w, ANum 0) :: (w', b) :: r2) tr) = Some (glue (ANum 0 :: map snd ((w', b) :: r2)))).
-        { intros Hb' Hz. rewrite glue_num0 by (cbn [map snd nocmp]; destruct b as [| |[]]; try reflexivity; exfalso; now apply (Hb' c)).
+        { intros Hb' Hz. rewrite glue_num0 by (cbn [map snd nocmp]; destruct b as [| |[]|]; try reflexivity; exfalso; now apply (Hb' c)).
           apply (lex_step n _ _ (TNum 0) (spaced ((w', b) :: r2) tr) _ Hskip Hne); [|exact IHr].
           rewrite scan_zero, Hsk, Hz. reflexivity. }
-        destruct b as [s1|k1|y1].
+        destruct b as [s1|k1|y1|]; [| | |apply Hnone; [discriminate | reflexivity]].
         -- apply Hnone; [discriminate|]. destruct s1 as [|ch rr]; [discriminate|]. cbn in Hb. apply andb_prop in Hb.
            destruct Hb as [Hl _]. cbn [atom_text append]. apply zero_cmp_none, wordc_not_opc. now apply letter_wordc.
         -- apply Hnone; [discriminate|]. destruct k1 as [|p1]; [reflexivity|].
@@ -486,7 +507,7 @@ Proof.
         { apply (lex_step n _ _ (TSym SColon) (spaced [] tr) _ Hskip Hne); [|exact IHr].
           rewrite scan_colon. cbn [spaced]. now rewrite skip_ws_blank_nil. }
         destruct (Hnext w' b r2 eq_refl) as (Hw' & Hcl & Hc2 & Hb & Hok2 & Hsk & IH2).
-        destruct b as [s1|k1|y1].
+        destruct b as [s1|k1|y1|].
         -- destruct (String.eqb_spec s1 "cns") as [->|Hs1].
            ++ cbn [map snd]. rewrite glue_colon_cns.
               apply (lex_step n _ _ TColonCns (spaced r2 tr) _ Hskip Hne); [|exact IH2].
@@ -501,6 +522,9 @@ Proof.
         -- rewrite glue_colon by reflexivity.
            apply (lex_step n _ _ (TSym SColon) (spaced ((w', ASym y1) :: r2) tr) _ Hskip Hne); [|exact IHr].
            rewrite scan_colon, Hsk. rewrite starts_cns_other; auto. discriminate.
+        -- rewrite glue_colon by reflexivity.
+           apply (lex_step n _ _ (TSym SColon) (spaced ((w', AComment) :: r2) tr) _ Hskip Hne); [|exact IHr].
+           rewrite scan_colon, Hsk. rewrite starts_cns_other; auto. discriminate.
       * (* = *) rewrite glue_sym by reflexivity.
         apply (lex_step n _ _ (TSym SAssign) (spaced r tr) _ Hskip Hne); [|exact IHr].
         apply scan_assign. now apply (hd_after_op (ASym SAssign)).
@@ -512,16 +536,20 @@ Proof.
           cbn [sym_text]. rewrite Hscan, after_cmp_spec. cbn [spaced]. now rewrite skip_ws_blank_nil. }
         destruct (Hnext w' b r2 eq_refl) as (Hw' & Hcl & Hc2 & Hb & Hok2 & Hsk & IH2).
         destruct (match b with ANum 0 => true | _ => false end) eqn:Eb.
-        -- destruct b as [|[|]|]; try discriminate Eb. cbn [map snd]. rewrite glue_cmp0.
+        -- destruct b as [|[|]| |]; try discriminate Eb. cbn [map snd]. rewrite glue_cmp0.
            apply (lex_step n _ _ (TCmpZ c0) (spaced r2 tr) _ Hskip Hne); [|exact IH2].
            cbn [sym_text]. rewrite Hscan, after_cmp_spec, Hsk. reflexivity.
-        -- rewrite glue_cmp by (cbn [map snd nozero]; destruct b as [|[|]|]; try reflexivity; discriminate Eb).
+        -- rewrite glue_cmp by (cbn [map snd nozero]; destruct b as [|[|]| |]; try reflexivity; discriminate Eb).
            apply (lex_step n _ _ (TSym (SCmp c0)) (spaced ((w', b) :: r2) tr) _ Hskip Hne); [|exact IHr].
            cbn [sym_text]. rewrite Hscan, after_cmp_spec, Hsk.
            rewrite is0_text; auto. intros ->. discriminate.
       * (* / *) rewrite glue_sym by reflexivity.
         apply (lex_step n _ _ (TSym SSlash) (spaced r tr) _ Hskip Hne); [|exact IHr].
         apply scan_slash. now apply (hd_after_op (ASym SSlash)).
+    + (* the comment: no token *)
+      rewrite glue_comment. cbn [atom_text] in *.
+      apply (lex_step_skip n _ _ (skip_while is_nl (spaced r tr)) _ Hskip Hne); [apply scan_comment|].
+      now rewrite lex_skip_nl.
 Qed.
 
 (* Every rendering of a safe document - any choice of blanks at every separator - lexes to the
@@ -544,6 +572,7 @@ Lemma Wd_space : Wd DSpace. Proof. intros k; reflexivity. Qed.
 Lemma Wd_line : Wd DLine. Proof. intros k; reflexivity. Qed.
 Lemma Wd_line_ : Wd DLine_. Proof. intros k; reflexivity. Qed.
 Lemma Wd_hardline : Wd DHardline. Proof. intros k; reflexivity. Qed.
+Lemma Wd_comment : Wd DComment. Proof. intros k; reflexivity. Qed.
 Lemma Wd_text a : atom_ok a = true -> Wd (DText a).
 Proof. intros H k. cbn [ak forallb]. now rewrite H. Qed.
 Lemma Wd_append a b : Wd a -> Wd b -> Wd (DAppend a b).
@@ -585,6 +614,7 @@ Ltac wd :=
          | |- Wd DLine => apply Wd_line
          | |- Wd DLine_ => apply Wd_line_
          | |- Wd DHardline => apply Wd_hardline
+         | |- Wd DComment => apply Wd_comment
          | |- Wd (sep_ _) => apply Wd_sep_
          | |- Wd (DText _) => apply Wd_text; reflexivity
          end.
@@ -714,9 +744,10 @@ Proof.
     rewrite tsz_if in Hm.
     assert (Wd (d_term c a)) by (apply IH; auto; lia). assert (Wd (d_term c th)) by (apply IH; auto; lia).
     assert (Wd (d_term c el)) by (apply IH; auto; lia).
-    assert (Wd (match b with None => DText (ANum 0) | Some b' => d_term c b' end))
-      by (destruct b as [b|]; [apply IH; auto; lia | apply Wd_text; reflexivity]).
-    cbn [d_term]. unfold block, braces, enclose, word, dsym. wd.
+    assert (match b with None => True | Some b' => Wd (d_term c b') end)
+      by (destruct b as [b|]; [apply IH; auto; lia | exact I]).
+    cbn [d_term]. unfold block, braces, enclose, word, dsym.
+    destruct b as [b|]; [destruct (ends_zero a), (starts_zero b) | destruct (ends_zero a)]; wd.
   - cbn [wf] in Hwf. rewrite !andb_true_iff in Hwf. destruct Hwf as ((Ha & Hn) & _). rewrite tsz_print in Hm.
     assert (Wd (d_term c a)) by (apply IH; auto; lia). assert (Wd (d_term c next)) by (apply IH; auto; lia).
     cbn [d_term]. unfold pblock, parens, enclose, word, dsym. destruct nl; wd.
